@@ -343,6 +343,7 @@ namespace bloch::runtime {
         RuntimeField* findInstanceField(RuntimeClass* cls, const std::string& name);
         RuntimeField* findStaticField(RuntimeClass* cls, const std::string& name);
         Value asDeclared(Value v, const RuntimeTypeInfo& declared) const;
+        bool qubitStillNamed(int index, const Object* except) const;
         void initStaticFields(RuntimeClass* cls);
         // Static field lookup through the class chain; initialises the owner's statics first if
         // that has not happened yet, so initialisation order follows use, not declaration order.
